@@ -42,6 +42,12 @@ CHECKS = {
  "C05": dict(engine="inputs", cat="exploration", tech="bounded-exhaustive input enumeration: every input within 1 (thorough 2) site-mutations of a valid instance of every message kind, fed to every inbound entry point of the real code (incl. the real dispatcher through raw-frame injection), counting allocator, complete size / timestamp / claimed-sender grids",
    text="Seeds: one valid instance of every wire frame, DHT message (7 operations, 9 results, 4 types), request/response envelope, core-engine request (9 variants) and DHT record (4 kinds). All single site-mutations (8 byte values, delete, 3 inserts, truncate, 7 oversized varints at every offset, appends) are fed to parse_protocol_message, handle_dht_message, parse_request_envelope, DhtCoreEngine::handle_request and DhtRecord::deserialize/serialize; size ladder 65535..131072; value sizes around 512; timestamp window edges; six claimed-sender values through the real dispatcher. Right level: the property quantifies over inputs; the structure-aware neighbourhood of valid messages is finite and enumerated completely.",
    note="random strings are not claimed; allocation limit 1 MiB + 4 x input (64 KiB for refused oversized DHT messages).", ref="3/C05"),
+ "C12": dict(engine="hist+loom", cat="model_checking", tech="explicit-state BFS over validate/batch/cleanup/sync-reload/crash-reload histories on the real MonotonicCounterSystem (rebuild-by-replay, reference high-water-mark model) + loom exploration of thread interleavings of the re-bound real source (preemption bound 2, thorough 3 / unbounded)",
+   text="Histories over 2 peers x sequences {0,1,2,3,5,u64::MAX} x hashes x in-window/too-old/future timestamps, every batch of <=2 requests, cleanup, sync-and-reload through the real background sync, reload without sync; merged on (counters, decoded store file) with a destructive probe comparing merged states. Thread part: vh-loom's build.rs re-binds only the std::sync / parking_lot imports of /repo/src/monotonic_counter.rs to loom types (build fails if a re-binding does not match exactly once) and explores 13 bodies of 2-3 threads submitting the same / consecutive / independent (peer, sequence) pairs; oracle: results and final state must come from some interleaving of atomic operations on the reference, exactly one accept per (peer, number). Right level: histories and schedules are the quantifiers.",
+   note="tokio::sync::Mutex statistics, tokio::fs and Instant::now are not intercepted by loom; each loom body runs in a child process.", ref="3/C12"),
+ "C14": dict(engine="hist+loom", cat="model_checking", tech="explicit-state BFS over arrival sequences on the real JoinRateLimiter / validation::RateLimiter / Engine (rebuild-by-replay, token-bucket reference bounded by harness-measured elapsed time) + loom exploration of the re-bound real rate_limit.rs",
+   text="All arrival sequences to depth 8 (thorough 12) over 9 addresses sharing /64, /48, /32, /24, /16 prefixes x 5 limiter configurations, check_ip over 4 IPs x 4 configs, Engine global/keyed consumption, timed histories with one real sleep (window roll-over). Clauses: per-prefix and global caps, burst+refill bound with refill bounded by measured elapsed time, key independence, a denied attempt never increases a budget (one-step differential). Loom: 16 bodies of 2-3 threads on one /64 (cap 1 and 2) and on distinct /64s of one /48. Right level: histories and schedules are the quantifiers.",
+   note="refill is bounded by the elapsed time measured by the harness around the whole history; replays slow enough for refill to exceed 0.25 token are repeated.", ref="3/C14"),
  "C06": dict(engine="crash", cat="fault_enumeration", tech="exhaustive crash-point and torn-write enumeration over operation histories of the real PersistentStateManager, reference-model oracle, second crash/restart cycle",
    text="Every history over {upsert, delete, batch(2), checkpoint} up to the tier length (quick 4, thorough 5) is executed on the real manager under several flush/rotation/clock configurations; every instrumented step of write/rotate/checkpoint inside the last operation and every byte-prefix of every append is a crash image; each image is reopened by a fresh manager and compared with the prefix-closed reference model; from every recovered state every one-operation extension plus clean restart is run and transaction ids inspected. Right level: the property quantifies over crash points and histories.",
    note="crash model = process death (written bytes survive in order); virtual wall clock through the timestamp hook; batch = one operation.", ref="3/C06"),
